@@ -202,7 +202,7 @@ PROPS.update({
 
 PROPS.update({
     'C10': dict(
-        extra_modules=['GraphrsModel.Props.C10Model'],
+        extra_modules=['GraphrsModel.Props.C10Model', 'GraphrsModel.Props.C10EqualSize'],
         gens=[('comp', 'small', 2500, 40000, 10), ('comp', 'small', 150, 3000, 24)],
         spec_fields=[r'ok\.cc', r'ok\.wcc', r'ok\.scc', r'ok\.ncc', r'ok\.num', r'ok\.bfs', r'ok\.eq'],
         model_fields=[r'build', r'cc', r'wcc', r'scc', r'ncc', r'num', r'eq'],
@@ -322,7 +322,7 @@ def gen_hist(req, I):
 
 PROPS.update({
     'C16': dict(
-        extra_modules=['GraphrsModel.Props.C16Store', 'GraphrsModel.Props.C16Dist'],
+        extra_modules=['GraphrsModel.Props.C16Store', 'GraphrsModel.Props.C16Dist', 'GraphrsModel.Props.C16DistDir'],
         thorough_scale=1.5,
         gens=[('complete', '-', 120, 600, 14), ('karate', '-', 1, 1, 0), ('gnp', 'small', 1500, 25000, 40), ('gnp', 'sparse', 4000, 60000, 40), ('gnp', 'large', 40, 400, 300),
               ('gnpstat', '-', 40, 300, 0)],
